@@ -272,3 +272,78 @@ func c15SlowSession(c *core.Collector, tcpAddr string, d consts.ActiveSafetyType
 	}()
 	wg.Wait()
 }
+
+// c15RudeNeighbour: on a server whose application handler takes 15 ms per event, "rude" clients pipeline a whole session
+// (0x1210, then 0x1211 / chunks / 0x1212 per file) in ONE write, wait for the first reply (the server has read everything by
+// then) and reset the connection, so that the server's following replies fail to be written while complete frames are still
+// buffered. After every few rude clients a polite session on the same server must be served in full: a connection whose
+// peer vanished must not take anything else down (seed C15s1: an early return out of the range-over-func reply loop panics).
+func c15RudeNeighbour(c *core.Collector, seed uint64, rounds int) {
+	d := consts.ActiveSafetyJS
+	addr, err := att.StartTCP(attachment.WithFileEventerFunc(func() attachment.FileEventer { return &att.Recorder{Delay: 15 * time.Millisecond} }), attachment.WithActiveSafetyType(d))
+	if err != nil {
+		c.Inconclusive()
+		return
+	}
+	resets := 0
+	for round := 0; round < rounds; round++ {
+		g := gen.G{Rand: core.NewRand(seed, "c15rude", uint64(round))}
+		p := attGenPlan(g, 0, false) // index 0: JS dialect
+		for i := range p.Files {
+			if p.Files[i].Size > 4096 {
+				p.Files[i].Size = 1 + g.Intn(4096)
+				p.Files[i].Chunks = [][2]int{{0, p.Files[i].Size}}
+			}
+		}
+		p.Gen, p.Mode = "rude-neighbour", "single write"
+		b := attBuild(p)
+		if round%3 == 2 {
+			// the polite session
+			c.Eval()
+			q := *p
+			viol, incon := attRun(&q, true, addr)
+			if incon {
+				c.Inconclusive()
+				continue
+			}
+			c.Count("polite_sessions_next_to_rude_clients", 1)
+			for _, v := range viol {
+				c.Violate(v[0], v[1]+" [polite session on a server that "+fmt.Sprint(resets)+" clients had reset mid-session]", p)
+			}
+			continue
+		}
+		c.Eval()
+		conn, err := net.DialTimeout("tcp", addr, 5*time.Second)
+		if err != nil {
+			c.Violate("rude|the attachment server no longer accepts connections after clients reset theirs mid-session", err.Error(), p)
+			return
+		}
+		conn.SetDeadline(time.Now().Add(20 * time.Second))
+		if _, err := conn.Write(b.stream); err != nil {
+			conn.Close()
+			c.Inconclusive()
+			continue
+		}
+		// first reply: bytes up to the second 0x7e
+		one := make([]byte, 1)
+		marks := 0
+		for marks < 2 {
+			if _, err := conn.Read(one); err != nil {
+				break
+			}
+			if one[0] == 0x7e {
+				marks++
+			}
+		}
+		conn.(*net.TCPConn).SetLinger(0)
+		conn.Close()
+		if marks == 2 {
+			resets++
+			c.Count("rude_clients_reset_after_first_reply", 1)
+		} else {
+			c.Inconclusive()
+		}
+		c.NonTrivial(core.HashString(fmt.Sprintf("rude/%d/%d", round, len(b.stream))))
+		time.Sleep(time.Duration(15*(len(p.Files)*2+2)) * time.Millisecond)
+	}
+}
